@@ -21,9 +21,9 @@ import compile_check
 
 LEVEL = "proof"
 LEVEL_NOTE = ("DES semantics (structure line fixes pairs, assignment line lays sequences onto it) is the reading of NUPACK's .des used by the oracle and the theorem; "
-              "BlocksOk is established by Sys.loadFile by theorem under the name hypotheses DesNamesOk (blocksOk_of_load) and still evaluated on every accepted program; "
-              "one component is closed against the source (des_equiv_component_of_load, via C01); for systems des_equiv is relative to the table design designOf, "
-              "whose agreement with denoteTop (C02) is evaluated on every accepted program (see des_equiv_of_load_partial)")
+              "full theorem des_equiv_of_load / des_equiv_top / des_equiv_of_load_checked for instance trees of any depth under one decidable check of the sources "
+              "(desBundleOk, evaluated by the model on every accepted program); one component closed against the source via C01 (des_equiv_component_of_load), "
+              "systems via C02 (designOf_sat_iff_of_load)")
 replay = compile_check.replay
 
 
